@@ -306,6 +306,15 @@ def run_case(case, ctx):
         if rel_dev(nli_o, nli0) > 1e-12:
             ctx.violation('order-dependence', f'NLI depends on the supply order (rel dev {rel_dev(nli_o, nli0):.2e})',
                           {'fibre': fparams, 'order': order[:20]})
+        # the other way of supplying channels: a {frequency: Carrier} mapping filled in any order
+        from gnpy.core.info import carriers_to_spectral_information
+        shuffled = [carriers[i] for i in order]
+        si_m = carriers_to_spectral_information(G.carriers_to_initial_spectrum(shuffled), power=1e-3)
+        nli_m = np.asarray(NliSolver.compute_nli(si_m, srs, fiber), dtype=float)
+        ctx.count('order_checks_mapping')
+        if rel_dev(nli_m, nli0) > 1e-12:
+            ctx.violation('order-dependence', 'NLI depends on the order in which the {frequency: Carrier} mapping was '
+                          f'filled (rel dev {rel_dev(nli_m, nli0):.2e})', {'fibre': fparams, 'order': order[:20]})
         if n >= 2:
             # raise one channel's power
             j = rng.randrange(n)
